@@ -418,7 +418,17 @@ def handle (cur : Option Transport) (op : String) (a : Proto.Args) : Option Tran
     match cur, opOfArgs (a.str "name") a with
     | some t, some o =>
       let (tr, r) := runOp t o (a.nats "rd")
-      let ts := if tr.isEmpty then "-" else Proto.joinWith " " (tr.map MAcc.str)
+      -- `queue_set`: the writes between the queue selection and the enabling write are printed as an
+      -- unordered group (the comparison sorts inside `{ … }`): the property orders only select-first
+      -- and enable-last
+      let strs := tr.map MAcc.str
+      let grouped := match o with
+        | .queueSet .. =>
+          if strs.length ≥ 3 then
+            [strs.headD ""] ++ ["{"] ++ (strs.drop 1).take (strs.length - 2) ++ ["}"] ++ [strs.getLastD ""]
+          else strs
+        | _ => strs
+      let ts := if tr.isEmpty then "-" else Proto.joinWith " " grouped
       (if o == .drop then none else cur, s!"{ts} => {r.str}")
     | _, _ => (cur, "bad-op")
   | _ => (cur, "bad-op")
